@@ -28,6 +28,7 @@ type concOp struct {
 	oneDest bool
 	modeA   h.Mode
 	maxTime time.Duration
+	slowFirst bool // the observer spends 2u of virtual time inside its first callback (periodic sources)
 	heavy   bool // more than three threads: one deviation less
 }
 
@@ -226,6 +227,19 @@ func c02Ops() []concOp {
 			iv := ro.Map(func(v int64) int { return int(v) + 100 })(ro.Take[int64](2)(ro.Interval(1 * u)))
 			return sub(placeInt(ro.Merge(iv, a), place), out)
 		}},
+		// periodic sources: the subscribing goroutine (a synchronous first value) and the ticker goroutine are the producers
+		{name: "Interval(1u)", slowFirst: true, wa: []h.Ev{}, wb: []h.Ev{}, maxTime: 4 * u, build: func(a, b ro.Observable[int], set *recSet, out *h.Rec, place string) ro.Subscription {
+			return sub(placeInt(ro.Map(func(v int64) int { return int(v) })(ro.Interval(1*u)), place), out)
+		}},
+		{name: "IntervalWithInitial(0,1u)", slowFirst: true, wa: []h.Ev{}, wb: []h.Ev{}, maxTime: 4 * u, build: func(a, b ro.Observable[int], set *recSet, out *h.Rec, place string) ro.Subscription {
+			return sub(placeInt(ro.Map(func(v int64) int { return int(v) })(ro.IntervalWithInitial(0, 1*u)), place), out)
+		}},
+		{name: "IntervalWithInitial(1u,1u)", slowFirst: true, wa: []h.Ev{}, wb: []h.Ev{}, maxTime: 4 * u, build: func(a, b ro.Observable[int], set *recSet, out *h.Rec, place string) ro.Subscription {
+			return sub(placeInt(ro.Map(func(v int64) int { return int(v) })(ro.IntervalWithInitial(1*u, 1*u)), place), out)
+		}},
+		{name: "RangeWithInterval(0,3,1u)", slowFirst: true, wa: []h.Ev{}, wb: []h.Ev{}, maxTime: 5 * u, build: func(a, b ro.Observable[int], set *recSet, out *h.Rec, place string) ro.Subscription {
+			return sub(placeInt(ro.Map(func(v int64) int { return int(v) })(ro.RangeWithInterval(0, 3, 1*u)), place), out)
+		}},
 	}
 	return ops
 }
@@ -283,6 +297,13 @@ func init() {
 						set := &recSet{}
 						out := h.NewRec("out")
 						out.YieldIn = true
+						if op.slowFirst {
+							out.Hook = func(r *h.Rec, idx int, e h.Ev) {
+								if idx == 0 {
+									vrt.HSleep(int64(2 * u))
+								}
+							}
+						}
 						set.add(out)
 						sa, sb := h.NewSrc("a"), h.NewSrc("b")
 						oa, pa := h.Pushed[int](sa, op.modeA)
